@@ -166,3 +166,60 @@ Definition r_pairs (R : N) (tr : list N) : list (nat * nat) :=
 (* number of tweaks a gate list consumes *)
 Definition tweaks_of (gs : list gate) : N :=
   fold_right (fun g acc => (match gop g with AND => 2 | OR | INV => 1 | _ => 0 end) + acc) 0 gs.
+
+(* ------------------------------------------------------------------ *)
+(* Streaming mode (circuit/stream_garble.go).  One streamed circuit works
+   on its inputs/outputs through the global wire store and on its
+   intermediate wires in the session-long [tmp] array: Streaming.Get/Set.
+   With the store at addresses [0, G) and tmp wire t at address G + t, a
+   streamed circuit is the flat gate list [sflat G c] over one memory. *)
+Record scirc := mkSC { sc_gates : list gate; sc_nw : nat; sc_in : list nat; sc_out : list nat }.
+
+Definition saddr (G : nat) (c : scirc) (w : nat) : nat :=
+  if (w <? length (sc_in c))%nat then nth w (sc_in c) 0%nat
+  else if (sc_nw c - length (sc_out c) <=? w)%nat
+       then nth (w - (sc_nw c - length (sc_out c))) (sc_out c) 0%nat
+       else (G + w)%nat.
+
+Definition sflat (G : nat) (c : scirc) : list gate :=
+  map (fun g => mkGate (saddr G c (gin0 g)) (saddr G c (gin1 g)) (saddr G c (gout g)) (gop g))
+      (sc_gates c).
+
+Section GS.
+  Variable St : Type.
+  Variable sbitf : N -> bool.
+  Variable H : hkey -> St -> N * St.
+
+  (* tweak counter carried through the whole session *)
+  Definition gstream_session (G : nat) (r : N) (mem : list wire) (st : St) (steps : list scirc)
+    : list wire * N * list (list N) * St :=
+    ggates St sbitf H r mem 0 st (concat (map (sflat G) steps)).
+
+  (* tweak counter restarted at 0 for every streamed circuit (the code
+     before the fix: `var id uint32` inside Streaming.Garble) *)
+  Fixpoint gstream_reset (G : nat) (r : N) (mem : list wire) (st : St) (steps : list scirc)
+    : list wire * list (list N) * St :=
+    match steps with
+    | [] => (mem, [], st)
+    | c :: rest =>
+        let '(mem', _, rows, st') := ggates St sbitf H r mem 0 st (sflat G c) in
+        let '(memf, rows', stf) := gstream_reset G r mem' st' rest in
+        (memf, rows ++ rows', stf)
+    end.
+End GS.
+
+(* symbolic streaming transcript: the session's [ni] input wires get basis
+   labels; every one of them is transmitted once (own inputs directly, the
+   peer's through the OT); then the rows of every streamed gate *)
+Definition sym_stream_mem (perm : nat -> bool) (ni n : nat) : list wire :=
+  sym_inputs perm ni ++ repeat w0 (n - ni).
+
+Definition sym_stream_transcript (reset : bool) (perm : nat -> bool) (G ni n : nat)
+           (steps : list scirc) (x : list bool) : list N :=
+  let mem := sym_stream_mem perm ni n in
+  let rows :=
+    if reset then
+      let '(_, rows, _) := gstream_reset sst sym_sbit (sym_H perm) G Rsym mem (mkSst ni []) steps in rows
+    else
+      let '(_, _, rows, _) := gstream_session sst sym_sbit (sym_H perm) G Rsym mem (mkSst ni []) steps in rows in
+  map (fun i => pick (nth i mem w0) (nth i x false)) (seq 0 ni) ++ concat rows.
